@@ -198,6 +198,150 @@ theorem printed_le (t : NT) (o : DiffOpts) : ∀ (l1 l2 : List Int) (n pr : Nat)
 example : arrayDiff .i32 { maxErr := 1 } [1, 2, 3, 4] [1, 9, 9, 4] = (2, 1) := by decide
 example : arrayDiff .i32 { maxErr := 0, pr8 := 8 } [0, 2] [5, 2] = (1, 1) := by decide   -- "not comparable" is printed whatever -e says
 
+/-! ## the element test on the whole IEEE value domain (NaN, ±Inf, -0.0)
+
+`differsV` / `arrayDiffV` are what the tie replays (`T tools adiff` / `hdiff` lines carry `nan`, `inf`, `-inf`, `-0`);
+on finite values they are the `differs` / `arrayDiff` of the sections above. -/
+
+/-- on finite values `differsV` IS `differs` (every number type, every option) -/
+theorem differsV_fin (t : NT) (o : DiffOpts) (a b : Int) : differsV t o (.fin a) (.fin b) = differs t o a b := by
+  cases t <;> try rfl
+  all_goals
+    simp only [differsV, differsF, differs, perF, FV.isZero, FV.sub, FV.abs, FV.gt, absQuot, perGt, stored, absDiff, absLimit]
+    by_cases hp : o.pr8 = 0
+    · simp [hp]
+    · by_cases ha : a = 0
+      · by_cases hb : b = 0 <;> simp [hp, ha, hb]
+      · simp [hp, ha]
+
+theorem notComparableV_fin (t : NT) (o : DiffOpts) (a b : Int) :
+    notComparableV t o (.fin a) (.fin b) = notComparable t o a b := by
+  cases t <;> try rfl
+  all_goals
+    simp only [notComparableV, notComparable, FV.isZero, stored]
+    by_cases ha : a = 0 <;> by_cases hb : b = 0 <;> simp [ha, hb]
+
+theorem arrayDiffLoopV_fin (t : NT) (o : DiffOpts) : ∀ (l1 l2 : List Int) (n pr : Nat),
+    arrayDiffLoopV t o (l1.map .fin) (l2.map .fin) n pr = arrayDiffLoop t o l1 l2 n pr := by
+  intro l1
+  induction l1 with
+  | nil => intro l2 n pr; simp [arrayDiffLoopV, arrayDiffLoop]
+  | cons a as ih =>
+    intro l2 n pr
+    cases l2 with
+    | nil => simp [arrayDiffLoopV, arrayDiffLoop]
+    | cons b bs =>
+      simp only [List.map_cons, arrayDiffLoopV, arrayDiffLoop, differsV_fin, notComparableV_fin, ih]
+
+/-- **refinement**: on buffers without special values the loop over `FV` is the loop of the sections above, so every
+    statement proved there holds for what the tie replays -/
+theorem arrayDiffV_fin (t : NT) (o : DiffOpts) (l1 l2 : List Int) :
+    arrayDiffV t o (l1.map .fin) (l2.map .fin) = arrayDiff t o l1 l2 := arrayDiffLoopV_fin t o l1 l2 0 0
+
+/-- **differsV_refl.** No element differs from itself, WHATEVER it holds: a finite number, a NaN (`fabs(NaN - NaN)` is a
+    NaN, and a NaN is not greater than the limit), `+Inf` / `-Inf` (`Inf - Inf` is a NaN as well).  Every number type, every
+    non-negative `-t` / `-p` limit. -/
+theorem differsV_refl (t : NT) (o : DiffOpts) (a : FV) (ht : 0 ≤ o.tl8) (hp : 0 ≤ o.pr8) : differsV t o a a = false := by
+  cases a with
+  | fin v => rw [differsV_fin]; exact differs_refl t o v ht hp
+  | nan => cases t <;> simp [differsV, differsF, perF, FV.isZero, FV.sub, FV.abs, FV.gt, absQuot, perGt]
+  | pinf => cases t <;> simp [differsV, differsF, perF, FV.isZero, FV.sub, FV.abs, FV.gt, absQuot, perGt]
+  | ninf => cases t <;> simp [differsV, differsF, perF, FV.isZero, FV.sub, FV.abs, FV.gt, absQuot, perGt]
+
+/-- **array_diff is reflexive on every buffer**: a buffer compared with itself (or with a bit-identical one: the model
+    does not see more than the values) gives `n_diff = 0` and prints nothing - also when it holds NaN / ±Inf -/
+theorem arrayDiffV_self (t : NT) (o : DiffOpts) (ht : 0 ≤ o.tl8) (hp : 0 ≤ o.pr8) : ∀ (l : List FV) (n pr : Nat),
+    arrayDiffLoopV t o l l n pr = (n, pr) := by
+  intro l
+  induction l with
+  | nil => intro n pr; rfl
+  | cons a as ih => intro n pr; simp only [arrayDiffLoopV, differsV_refl t o a ht hp]; exact ih n pr
+
+example : differsV .f64 { tl8 := 4 } .nan .nan = false ∧ differsV .f32 { pr8 := 4 } .pinf .pinf = false
+    ∧ differsV .f32 { pr8 := 4 } .ninf .ninf = false := by decide   -- the hypotheses of differsV_refl hold for real option sets
+example : arrayDiffV .f64 { maxErr := 1 } [.fin 8, .pinf, .nan, .fin 0] [.fin 8, .ninf, .fin 8, .ninf] = (2, 1) := by decide  -- NaN ↔ 1.0 passed over
+example : arrayDiffV .f32 {} [.nan, .pinf, .ninf, .fin 0, .fin (-3)] [.nan, .pinf, .ninf, .fin 0, .fin (-3)] = (0, 0) := by decide
+
+theorem FV.sub_abs_comm (a b : FV) : (a.sub b).abs = (b.sub a).abs := by
+  cases a <;> cases b <;> simp [FV.sub, FV.abs]
+  omega
+
+/-- **differsV_symm (absolute criterion)**: without `-p` the verdict does not depend on the order of the files, special
+    values included -/
+theorem differsV_symm (t : NT) (o : DiffOpts) (a b : FV) (hp : o.pr8 = 0) : differsV t o a b = differsV t o b a := by
+  cases t
+  case f32 | f64 => simp only [differsV, differsF, hp, ne_eq, not_true_eq_false, if_false, FV.sub_abs_comm a b]
+  all_goals
+    cases a <;> cases b <;> simp only [differsV]
+    exact differs_symm _ o _ _ hp
+
+example : differsV .f32 {} (.fin 0) .pinf = differsV .f32 {} .pinf (.fin 0) := differsV_symm _ _ _ _ rfl
+
+/-- **what the default test (no `-t`, no `-p`) of the floating-point branches lets pass**: a pair is NOT counted exactly when
+    the two elements hold the same value, or when one of them is a NaN.  The second alternative is a blind spot of the code
+    as it is (`fabs(NaN - x) > limit` is false): a value that became a NaN - or a NaN that became a number - is not
+    reported (finding `hdiff-nan-difference-not-greater-than-limit`). -/
+theorem differsF_default_iff (a b : FV) : differsF {} a b = false ↔ (a = b ∨ a = .nan ∨ b = .nan) := by
+  cases a <;> cases b <;> simp [differsF, FV.sub, FV.abs, FV.gt]
+  omega
+
+/-- ... so a single changed element is flagged in both orders as soon as no NaN is involved: number ↔ other number,
+    number ↔ ±Inf, +Inf ↔ -Inf -/
+theorem single_change_flaggedF (a b : FV) (h : a ≠ b) (ha : a ≠ .nan) (hb : b ≠ .nan) :
+    differsF {} a b = true ∧ differsF {} b a = true := by
+  constructor
+  · cases hd : differsF {} a b
+    · rcases (differsF_default_iff a b).mp hd with h1 | h1 | h1
+      · exact absurd h1 h
+      · exact absurd h1 ha
+      · exact absurd h1 hb
+    · rfl
+  · cases hd : differsF {} b a
+    · rcases (differsF_default_iff b a).mp hd with h1 | h1 | h1
+      · exact absurd h1.symm h
+      · exact absurd h1 hb
+      · exact absurd h1 ha
+    · rfl
+
+/-- the blind spot, for every `-t` limit: with the absolute criterion a NaN on either side is never a difference -/
+theorem nan_never_differs_abs (o : DiffOpts) (hp : o.pr8 = 0) (b : FV) :
+    differsF o .nan b = false ∧ differsF o b .nan = false := by
+  cases b <;> simp [differsF, hp, FV.sub, FV.abs, FV.gt]
+
+/-- with `-p`: a NaN in the FIRST file is never a difference; a NaN in the second file is one exactly when the first file
+    holds 0 there ("not comparable") -/
+theorem nan_differs_rel (o : DiffOpts) (hp : o.pr8 ≠ 0) (b : FV) :
+    differsF o .nan b = false ∧ (differsF o b .nan = true ↔ b = .fin 0) := by
+  cases b <;> simp [differsF, hp, perF, FV.isZero, FV.sub, absQuot, perGt]
+  rename_i v
+  by_cases hv : v = 0 <;> simp [hv]
+
+example : differsF {} .nan (.fin 8) = false ∧ differsF {} (.fin 8) .nan = false := by decide      -- NaN ↔ 1.0 : not seen
+example : differsF {} .pinf .ninf = true ∧ differsF {} .pinf (.fin 8) = true ∧ differsF {} .pinf .pinf = false := by decide
+example : differsF { pr8 := 4 } .pinf .ninf = false ∧ differsF { pr8 := 4 } (.fin 8) .pinf = true := by decide  -- -p: (B-A)/A = Inf/Inf
+
+/-- the `-e` cap never changes the verdict, special values included -/
+theorem loopV_fst_cap (t : NT) (o : DiffOpts) (m1 m2 : Nat) : ∀ (l1 l2 : List FV) (n pr1 pr2 : Nat),
+    (arrayDiffLoopV t { o with maxErr := m1 } l1 l2 n pr1).1 = (arrayDiffLoopV t { o with maxErr := m2 } l1 l2 n pr2).1 := by
+  intro l1
+  induction l1 with
+  | nil => intro l2 n pr1 pr2; simp [arrayDiffLoopV]
+  | cons a as ih =>
+    intro l2 n pr1 pr2
+    cases l2 with
+    | nil => simp [arrayDiffLoopV]
+    | cons b bs =>
+      have hd : differsV t { o with maxErr := m1 } a b = differsV t { o with maxErr := m2 } a b := by
+        cases t <;> rfl
+      simp only [arrayDiffLoopV, hd]
+      split
+      · split <;> split <;> exact ih bs _ _ _
+      · exact ih bs _ _ _
+
+theorem cap_only_printingV (t : NT) (o : DiffOpts) (m1 m2 : Nat) (l1 l2 : List FV) :
+    (arrayDiffV t { o with maxErr := m1 } l1 l2).1 = (arrayDiffV t { o with maxErr := m2 } l1 l2).1 :=
+  loopV_fst_cap t o m1 m2 l1 l2 0 0 0
+
 /-! ## object matching and exit status -/
 
 theorem sum_eq_zero_iff : ∀ (l : List Nat), l.sum = 0 ↔ ∀ x ∈ l, x = 0 := by
@@ -259,6 +403,14 @@ theorem strcmp_eq : ∀ (a b : Str), strcmp a b = .eq ↔ a = b := by
           have e : x.toNat = y.toNat := by omega
           have : x = y := by rw [← Char.ofNat_toNat x, ← Char.ofNat_toNat y, e]
           subst this; simp [ih ys]
+
+/-- **hdiff F F exits 0** on the model of the top-level code, for a dataset holding any values (NaN / ±Inf included) and
+    any non-negative `-t` / `-p` -/
+theorem hdiff_self_exit0 (t : NT) (o : DiffOpts) (ht : 0 ≤ o.tl8) (hp : 0 ≤ o.pr8) (l : List FV) (nm : Str) :
+    exitCode (fun _ => (arrayDiffV t o l l).1) [nm] [nm] 0 0 = 0 := by
+  unfold arrayDiffV
+  rw [arrayDiffV_self t o ht hp]
+  simp [exitCode, matchFound, matchTable, matchLoop, (strcmp_eq nm nm).mpr rfl]
 
 theorem strcmp_swap : ∀ (a b : Str), strcmp a b = .lt ↔ strcmp b a = .gt := by
   intro a
